@@ -7,7 +7,8 @@ C17 driver.  One request per line:
   digest (16 hex digits, FNV-1a of the AST's `Debug` text) — the abstract `formulaOk` and the
   value printed for formulas (`#digest`); formula syntax itself is property C05.
 * `<TREE>` prefix encoding of the root element as roxmltree reports it:
-  `E <hex tag> <nattrs> (<hex name> <hex value>)* <nchildren> TREE*` | `T <hex text>` | `C <hex comment>`
+  `E <hex tag> <nattrs> (<hex name> <hex value>)* <nchildren> TREE*` | `T <hex text>` | `C <hex comment>` | `P`
+  (tags / attribute names are LOCAL names, namespace declarations are not attributes; `P` = processing instruction)
   (hex of the UTF-8 bytes, `-` for the empty string).
 
 Answer: `panic` or
@@ -131,6 +132,7 @@ def decTree : Nat → List String → Option (Elem × List String)
     match ts with
     | "T" :: h :: r => (hexToStr h).map fun s => (.text s, r)
     | "C" :: h :: r => (hexToStr h).map fun s => (.comment s, r)
+    | "P" :: r => some (.pi, r)
     | "E" :: tag :: na :: r =>
       match hexToStr tag, na.toNat? with
       | some tag, some na =>
